@@ -187,7 +187,8 @@ func init() {
 		Parts: append(c09SeqParts(),
 			mk("C09", "large-backfill", 40, 800, false, func(c *sup.Ctx, r *rng.R, _ []string) { largeBackfillScenario(c, r) }),
 			mk("C09", "join-races", 300, 6000, false, joinScenario),
-			mk("C09", "join-races-race", 20, 200, true, joinScenario)),
+			mk("C09", "join-races-race", 20, 200, true, joinScenario),
+			sup.Part{Name: "stale-handle-after-drop", Timeout: 60 * time.Second, Count: func(t string) int { return tierN(t, 60, 1200) }, Run: staleHandleScenario}),
 		RaceOwner: func(string) bool { return false },
 		Floor: func(tier string, m *sup.Merged) string {
 			if m.Counts["backfill_events_compared"] < 5000 {
